@@ -3,4 +3,6 @@
 //! line-protocol engine over it (`mkt`).
 pub mod market;
 pub mod mkt;
+pub mod liq;
+pub mod liq06;
 pub mod perp;
